@@ -6,14 +6,20 @@
   bytes that were read — the reader stores every field the writer needs; (2) decode + default
   re-encode is idempotent, so a default-encoded file is reproduced by decode/re-encode; (3) the
   table-level metadata entries are written back unchanged.
-  `rewrite_identity_partial`: the whole-file statement is proved for the slices and the table-level
-  entries; the clause "the column-metadata name list of a library-written file is reproduced"
-  (first-appearance folding is idempotent on what the reader rebuilds) is NOT proved here; it is
-  covered by the correspondence (bytes of read→write vs input on every generated file).
+  (4) `rewrite_identity`: for every file written by the library from an API-built table, reading
+  it and writing the returned structures back emits the very same bytes — this needs that
+  first-appearance folding is idempotent on the column metadata the reader rebuilds
+  (`tm_rewrite_identity`, via the combinatorial lemma `fa_rebuilt` of Sbdf/Lemmas/FirstApp.lean).
+  NOT proved: the clause about FOREIGN streams ("writing what was read either fails or produces a
+  stream that reads back to the same logical content"); `rewrite_identity_partial` covers their
+  slices and table-level entries, the rest is covered by the correspondence only.
 -/
 import Sbdf.Props.C03
 import Sbdf.Props.C04
 import Sbdf.Props.C07
+import Sbdf.Props.C01
+import Sbdf.Lemmas.FirstApp
+import Sbdf.Props.C15
 namespace Sbdf.C08
 open Spec
 
@@ -90,5 +96,298 @@ theorem dflt_reencode (c : Cfg) (o : Obj) (va : VA) (h : createDflt o = .ok va)
   · simp only [hb, if_false] at h
     obtain ⟨hg, _⟩ := C02.plain_lossless c o va h
     exact ⟨o, hg, by unfold createDflt; simp only [hb, if_false]; exact h⟩
+
+
+/-- the column function of a column: the entry it holds under the name of a name-list row, as the
+    reader rebuilds it (the row's name and default, the column's value) -/
+def gOf (col : Md) : ColFn := fun k =>
+  ((col.find k.name).bind (·.value)).map (fun v => ⟨cstr k.name, some v, k.dflt⟩)
+
+theorem rebuilt_eq_filterMap (col : Md) (l : List MdEntry) :
+    C01.rebuilt (l.map (fun k => (⟨k.name, entryTid k, k.dflt⟩ : NameRow)))
+      (l.map (fun k => (col.find k.name).bind (·.value))) = l.filterMap (gOf col) := by
+  induction l with
+  | nil => rfl
+  | cons k ks ih =>
+    simp only [List.map_cons, List.filterMap_cons, gOf]
+    cases hv : (col.find k.name).bind (·.value) with
+    | none => simp only [C01.rebuilt, Option.map_none]; exact ih
+    | some v => simp only [C01.rebuilt, Option.map_some]; rw [ih]
+
+theorem rebuilt_all (tm : TM) (kept : List MdEntry) :
+    ((C01.rebuiltCols tm kept).map Md.freeze).flatMap (·.entries) = rebuiltAll (tm.cols.map gOf) kept := by
+  unfold C01.rebuiltCols rebuiltAll
+  simp only [List.map_map, List.flatMap_map]
+  congr 1
+  funext col
+  simp only [Function.comp, Md.freeze]
+  exact rebuilt_eq_filterMap col kept
+
+theorem find_some_of_mem (col : Md) (k : MdEntry) (hk : k ∈ col.entries) : ∃ e, col.find k.name = some e ∧ e ∈ col.entries := by
+  unfold Md.find
+  cases hf : col.entries.find? (fun e => Md.nameEq e.name k.name) with
+  | some e => exact ⟨e, rfl, List.mem_of_find?_eq_some hf⟩
+  | none =>
+    have := List.find?_eq_none.mp hf k hk
+    simp [Md.nameEq] at this
+
+/-- the name list produced by folding lists the names in order of first appearance over the
+    columns: for every column index the names seen so far form a prefix -/
+theorem kept_prefixCompat (c : Cfg) (tm : TM) (kept : List MdEntry) (h : C01.ApiTM c tm kept) :
+    PrefixCompat (tm.cols.map gOf) kept := by
+  intro pre g post hsplit
+  -- the corresponding split of the columns
+  obtain ⟨cpre, crest, hc1, hpre, hrest⟩ := List.map_eq_append_iff.mp hsplit
+  obtain ⟨colj, cpost, hc2, hg, hpost⟩ := List.map_eq_cons_iff.mp hrest
+  have hcols : tm.cols = cpre ++ colj :: cpost := by rw [hc1, hc2]
+  have hkept : kept = firstAppearance [] (tm.cols.flatMap (·.entries)) := C03.fold_order _ kept h.fold
+  have hall : tm.cols.flatMap (·.entries) =
+      (cpre ++ [colj]).flatMap (·.entries) ++ cpost.flatMap (·.entries) := by
+    rw [hcols]; simp [List.flatMap_append]
+  rw [hall, fa_append] at hkept
+  refine ⟨_, _, hkept, ?_, ?_⟩
+  · intro k hk
+    have hmem := fa_subset _ _ k hk
+    rw [List.mem_flatMap] at hmem
+    obtain ⟨col, hcol, hkc⟩ := hmem
+    have hcolm : col ∈ tm.cols := by
+      rw [hcols]
+      rcases List.mem_append.mp hcol with h1 | h1
+      · exact List.mem_append.mpr (.inl h1)
+      · have := List.mem_singleton.mp h1; subst this; simp
+    refine ⟨gOf col, ?_, ?_⟩
+    · rw [← hpre, ← hg]
+      simp only [List.mem_append, List.mem_map, List.mem_singleton] at hcol ⊢
+      rcases hcol with h1 | h1
+      · exact .inl ⟨col, h1, rfl⟩
+      · exact .inr (by rw [h1])
+    · obtain ⟨e, hfe, hem⟩ := find_some_of_mem col k hkc
+      obtain ⟨v, hv, _⟩ := (h.colInv col hcolm).single e hem
+      simp [gOf, hfe, hv]
+  · intro k hk g' hg'
+    have hun := fa_unseen _ _ k hk
+    simp only [List.append_nil] at hun
+    rw [← hpre, ← hg] at hg'
+    have : ∃ col ∈ cpre ++ [colj], g' = gOf col := by
+      simp only [List.mem_append, List.mem_map, List.mem_singleton] at hg' ⊢
+      rcases hg' with ⟨col, h1, rfl⟩ | rfl
+      · exact ⟨col, .inl h1, rfl⟩
+      · exact ⟨colj, .inr rfl, rfl⟩
+    obtain ⟨col, hcol, rfl⟩ := this
+    have hnone : col.find k.name = none := by
+      unfold Md.find
+      rw [List.find?_eq_none]
+      intro e he
+      rw [List.any_eq_false] at hun
+      have := hun e (by
+        rw [List.mem_reverse, List.mem_flatMap]; exact ⟨col, hcol, he⟩)
+      simpa [sameName] using this
+    simp [gOf, hnone]
+
+theorem filterMap_map_eq {α β γ : Type} (l : List α) (f : α → Option β) (r : β → γ) (r' : α → γ)
+    (h : ∀ k ∈ l, ∃ e, f k = some e ∧ r e = r' k) : (l.filterMap f).map r = l.map r' := by
+  induction l with
+  | nil => rfl
+  | cons k ks ih =>
+    obtain ⟨e, he, hr⟩ := h k (by simp)
+    simp only [List.filterMap_cons, he, List.map_cons, hr]
+    rw [ih (fun x hx => h x (by simp [hx]))]
+
+theorem wf_of_fits {c : Cfg} {o : Obj} (h : o.Fits c) : o.WF := by
+  unfold Obj.Fits at h
+  unfold Obj.WF
+  split
+  · trivial
+  · rename_i ha
+    simp only [ha] at h
+    obtain ⟨sz, hsz, hlen, _⟩ := h
+    exact ⟨sz, hsz, hlen⟩
+
+theorem objEqOpt_refl (d : Option Obj) (h : ∀ x, d = some x → x.WF) : objEqOpt d d = true := by
+  cases d with
+  | none => rfl
+  | some x => exact C15.objEq_refl x (h x rfl)
+
+/-- shape of what a column function returns -/
+theorem gOf_some (col : Md) (k e : MdEntry) (h : gOf col k = some e) :
+    ∃ v, (col.find k.name).bind (·.value) = some v ∧ e = ⟨cstr k.name, some v, k.dflt⟩ := by
+  unfold gOf at h
+  cases hv : (col.find k.name).bind (·.value) with
+  | none => simp [hv] at h
+  | some v => simp only [hv, Option.map_some, Option.some.injEq] at h; exact ⟨v, rfl, h.symm⟩
+
+/-- C08, table metadata of a library-written file: folding the column metadata the reader
+    rebuilt yields the same name list, and the canonical physical layout of what was read is the
+    canonical physical layout of what was written — so `sbdf_tm_write` of the read structure emits
+    the very bytes that were read (with `C03.tm_bytes`). -/
+theorem tm_rewrite_identity (c : Cfg) (tm : TM) (kept : List MdEntry) (h : C01.ApiTM c tm kept)
+    (hnul : ∀ col ∈ tm.cols, ∀ e ∈ col.entries, cstr e.name = e.name) :
+    let tm' : TM := ⟨⟨tm.table.entries, false⟩, (C01.rebuiltCols tm kept).map Md.freeze⟩
+    ∃ kept', foldCols (tm'.cols.flatMap (·.entries)) = .ok kept' ∧
+      C03.canonPhys tm' kept' = C03.canonPhys tm kept := by
+  intro tm'
+  obtain ⟨hrep, hall, hdist⟩ := fold_facts _ kept h.fold
+  have hAll : tm'.cols.flatMap (·.entries) = rebuiltAll (tm.cols.map gOf) kept := rebuilt_all tm kept
+  have hkey : ∀ g ∈ tm.cols.map gOf, ∀ k e, g k = some e → sameName e k = true := by
+    intro g hg k e hge
+    simp only [List.mem_map] at hg
+    obtain ⟨col, _, rfl⟩ := hg
+    obtain ⟨v, _, rfl⟩ := gOf_some col k e hge
+    simp [sameName, C11.nameEq_cstr, C11.nameEq_refl]
+  have hfa := fa_rebuilt (tm.cols.map gOf) hkey kept hdist
+    (pairwise_before_of_prefixCompat _ _ (kept_prefixCompat c tm kept h))
+  -- every element of what the reader rebuilt comes from a column and a name-list row
+  have hmemAll : ∀ e ∈ rebuiltAll (tm.cols.map gOf) kept, ∃ col ∈ tm.cols, ∃ k ∈ kept, gOf col k = some e := by
+    intro e he
+    simp only [rebuiltAll, List.mem_flatMap, List.mem_map, List.mem_filterMap] at he
+    obtain ⟨g, ⟨col, hcol, rfl⟩, k, hk, hge⟩ := he
+    exact ⟨col, hcol, k, hk, hge⟩
+  have kdflt_wf : ∀ k ∈ kept, ∀ x, k.dflt = some x → x.WF := by
+    intro k hk x hx
+    obtain ⟨col, hcol, hkc⟩ := C01.entry_of_kept hall hk
+    exact wf_of_fits ((h.colFit col hcol k hkc).2.2 x hx).1
+  -- the fold of the rebuilt columns succeeds
+  obtain ⟨kept', hfold'⟩ := C03.fold_accepts (rebuiltAll (tm.cols.map gOf) kept) (by
+    intro pre e post hdec p hp hpe
+    have he : e ∈ rebuiltAll (tm.cols.map gOf) kept := by rw [hdec]; simp
+    have hpm : p ∈ rebuiltAll (tm.cols.map gOf) kept := by rw [hdec]; simp [hp]
+    obtain ⟨c1, hc1, k1, hk1, hg1⟩ := hmemAll p hpm
+    obtain ⟨c2, hc2, k2, hk2, hg2⟩ := hmemAll e he
+    obtain ⟨v1, hv1, rfl⟩ := gOf_some c1 k1 p hg1
+    obtain ⟨v2, hv2, rfl⟩ := gOf_some c2 k2 e hg2
+    have hkk : k1 = k2 := by
+      apply C01.same_name_same_entry kept hdist k1 k2 hk1 hk2
+      simp only at hpe
+      have := hpe
+      rw [C11.nameEq_cstr, C11.nameEq_symm, C11.nameEq_cstr, C11.nameEq_symm] at this
+      exact this
+    subst hkk
+    have t1 := (C01.present_value c tm kept h c1 hc1 k1 hk1 v1 hv1).2.1
+    have t2 := (C01.present_value c tm kept h c2 hc2 k1 hk1 v2 hv2).2.1
+    exact ⟨by simp [entryTid, t1, t2], objEqOpt_refl _ (kdflt_wf k1 hk1)⟩)
+  have hkept' : kept' = kept.filterMap (firstCol (tm.cols.map gOf)) := by
+    rw [← hfa]; exact C03.fold_order _ kept' hfold'
+  refine ⟨kept', by rw [hAll]; exact hfold', ?_⟩
+  -- what the first column holding a name contributes for a name-list row
+  have hfirst : ∀ k ∈ kept, ∃ e, firstCol (tm.cols.map gOf) k = some e ∧ ∃ col ∈ tm.cols, ∃ v,
+      (col.find k.name).bind (·.value) = some v ∧ e = ⟨cstr k.name, some v, k.dflt⟩ := by
+    intro k hk
+    obtain ⟨col, hcol, hkc⟩ := C01.entry_of_kept hall hk
+    have hsome : (gOf col k).isSome = true := by
+      obtain ⟨e', hfe, hem⟩ := find_some_of_mem col k hkc
+      obtain ⟨v, hv, _⟩ := (h.colInv col hcol).single e' hem
+      simp [gOf, hfe, hv]
+    cases hfc : firstCol (tm.cols.map gOf) k with
+    | none =>
+      have := firstCol_none _ k hfc (gOf col) (by simp only [List.mem_map]; exact ⟨col, hcol, rfl⟩)
+      rw [this] at hsome; simp at hsome
+    | some e =>
+      unfold firstCol at hfc
+      obtain ⟨g, hg, hge⟩ := List.exists_of_findSome?_eq_some hfc
+      simp only [List.mem_map] at hg
+      obtain ⟨col', hcol', rfl⟩ := hg
+      obtain ⟨v, hv, he⟩ := gOf_some col' k e hge
+      exact ⟨e, rfl, col', hcol', v, hv, he⟩
+  have hnulk : ∀ k ∈ kept, cstr k.name = k.name := by
+    intro k hk
+    obtain ⟨col, hcol, hkc⟩ := C01.entry_of_kept hall hk
+    exact hnul col hcol k hkc
+  unfold C03.canonPhys
+  simp only [PhysTM.mk.injEq]
+  refine ⟨rfl, ?_, ?_⟩
+  · -- the name rows
+    rw [hkept']
+    apply filterMap_map_eq
+    intro k hk
+    obtain ⟨e, hfe, col, hcol, v, hv, he⟩ := hfirst k hk
+    refine ⟨e, hfe, ?_⟩
+    subst he
+    have t := (C01.present_value c tm kept h col hcol k hk v hv).2.1
+    simp [entryTid, hnulk k hk, t]
+  · -- the per-column values
+    show (List.map Md.freeze (C01.rebuiltCols tm kept)).map _ = _
+    unfold C01.rebuiltCols
+    rw [List.map_map, List.map_map]
+    apply List.map_congr_left
+    intro col hcol
+    simp only [Function.comp]
+    rw [hkept']
+    apply filterMap_map_eq
+    intro k hk
+    obtain ⟨e, hfe, col', hcol', v, hv, he⟩ := hfirst k hk
+    refine ⟨e, hfe, ?_⟩
+    subst he
+    simp only
+    have hl := C01.rebuilt_lookup col kept (fun e' he' => by
+      obtain ⟨k', hk', hn, _⟩ := hrep e' (by simp only [List.mem_flatMap]; exact ⟨col, hcol, he'⟩)
+      exact ⟨k', hk', hn⟩) (cstr k.name)
+    have hfr : ∀ (m : Md) (n : Bytes), m.freeze.find n = m.find n := fun _ _ => rfl
+    rw [hfr, hl, C01.find_congr col (cstr k.name) k.name (by rw [C11.nameEq_cstr]; exact C11.nameEq_refl _)]
+
+
+/-- C08, main clause: for every table built through the API (C10 invariants, NUL-free names as the
+    API stores them, allocation limits of the reader) and every list of slices, the file the
+    library writes, read back in full and written again from the returned structures, is the same
+    byte string. -/
+theorem rewrite_identity (c : Cfg) (tm : TM) (slices : List (List CS)) (kept : List MdEntry)
+    (h : C01.ApiTM c tm kept) (hnul : ∀ col ∈ tm.cols, ∀ e ∈ col.entries, cstr e.name = e.name)
+    (hn : ∀ s ∈ slices, s.length = tm.cols.length) (hf : ∀ s ∈ slices, TSFits c s)
+    (fuel : Nat) (hfuel : slices.length < fuel) :
+    ∃ bytes, Emits (writeFile c ⟨tm, slices.map (fun s => ⟨s.map some⟩)⟩) bytes ∧
+      ∃ tm' slices', readFileF c none fuel bytes.toArray = ⟨.ok (1, 0), some (.ok tm'), slices', some (.tableEnd bytes.length)⟩ ∧
+        Emits (writeFile c ⟨tm', slices'⟩) bytes := by
+  obtain ⟨bytes, hem, hread⟩ := C01.api_roundtrip c tm slices kept h hn hf none [] fuel hfuel
+  simp only [List.append_nil] at hread
+  refine ⟨bytes, hem, _, _, hread, ?_⟩
+  -- the bytes are those of the canonical layout
+  have hb : bytes = C04.file c (C03.canonPhys tm kept) slices := by
+    obtain ⟨_, hall, _⟩ := fold_facts _ kept h.fold
+    have mdw : ∀ (m : Md), C10.Inv m → (∀ e ∈ m.entries, fitsStr c e.name.length ∧
+        (∀ v, e.value = some v → v.Fits c ∧ v.tid < 256) ∧ (∀ d, e.dflt = some d → d.Fits c ∧ d.tid < 256)) →
+        C03.MdWritable m := by
+      intro m hi hfit e he
+      obtain ⟨v, hv, _, _⟩ := hi.single e he
+      obtain ⟨_, hfv, hfd⟩ := hfit e he
+      exact ⟨⟨v, hv, C01.writable_of_fits (hfv v hv).1⟩, fun d hd => C01.writable_of_fits (hfd d hd).1⟩
+    have := C03.file_bytes c tm slices kept h.fold (mdw _ h.tabInv h.tabFit)
+      (fun col hcol => mdw col (h.colInv col hcol) (h.colFit col hcol))
+      (fun k hk d hd => by
+        obtain ⟨col, hcol, hkc⟩ := C01.entry_of_kept hall hk
+        exact C01.writable_of_fits ((h.colFit col hcol k hkc).2.2 d hd).1)
+      (fun s hs x hx => C01.cs_writable_of_fits ((hf s hs).1 x hx))
+    rw [← hem.2, this.2]
+  obtain ⟨kept', hfold', hcanon⟩ := tm_rewrite_identity c tm kept h hnul
+  obtain ⟨_, hall, _⟩ := fold_facts _ kept h.fold
+  have hmask : slices.map (fun s => (⟨maskFrom none 0 s⟩ : TS)) = slices.map (fun s => ⟨s.map some⟩) := by
+    congr 1; funext s; rw [maskFrom_none]
+  rw [hmask, hb, ← hcanon]
+  apply C03.file_bytes c _ slices kept' hfold'
+  · -- table-level entries of what was read are those that were written
+    intro e he
+    obtain ⟨v, hv, _, _⟩ := h.tabInv.single e he
+    obtain ⟨_, hfv, hfd⟩ := h.tabFit e he
+    exact ⟨⟨v, hv, C01.writable_of_fits (hfv v hv).1⟩, fun d hd => C01.writable_of_fits (hfd d hd).1⟩
+  · -- the rebuilt column metadata is serialisable
+    intro col' hcol' e he
+    simp only [C01.rebuiltCols, List.map_map, List.mem_map, Function.comp] at hcol'
+    obtain ⟨col, hcol, rfl⟩ := hcol'
+    simp only [Md.freeze] at he
+    rw [rebuilt_eq_filterMap, List.mem_filterMap] at he
+    obtain ⟨k, hk, hge⟩ := he
+    obtain ⟨v, hv, rfl⟩ := gOf_some col k e hge
+    obtain ⟨hok, _, _⟩ := C01.present_value c tm kept h col hcol k hk v hv
+    obtain ⟨colk, hcolk, hkc⟩ := C01.entry_of_kept hall hk
+    exact ⟨⟨v, rfl, C01.writable_of_fits hok.1⟩, fun d hd => C01.writable_of_fits ((h.colFit colk hcolk k hkc).2.2 d hd).1⟩
+  · -- defaults of the new name list
+    intro k' hk' d hd
+    have hk'mem := (fold_facts _ kept' hfold').2.1 k' hk'
+    rw [rebuilt_all] at hk'mem
+    simp only [rebuiltAll, List.mem_flatMap, List.mem_map, List.mem_filterMap] at hk'mem
+    obtain ⟨g, ⟨col, hcol, rfl⟩, k, hk, hge⟩ := hk'mem
+    obtain ⟨v, hv, rfl⟩ := gOf_some col k k' hge
+    obtain ⟨colk, hcolk, hkc⟩ := C01.entry_of_kept hall hk
+    exact C01.writable_of_fits ((h.colFit colk hcolk k hkc).2.2 d hd).1
+  · intro s hs x hx
+    exact C01.cs_writable_of_fits ((hf s hs).1 x hx)
 
 end Sbdf.C08
